@@ -348,6 +348,32 @@ def layered(sizes, directed=False):
     return A
 
 
+def blob_chain(k, m, directed=False):
+    """a complete graph on k nodes and, separately, a path on m nodes: walk counts grow like (k-1)**m"""
+    A = disjoint(complete(k), path(m) if not directed else np.triu(path(m)))
+    return A
+
+
+def dense_out_low_in(n, seed):
+    """strongly connected digraph in which every node has out-degree >= n/2 while nodes 0 and 1 have exactly one
+    incoming connection each (from nodes 2 and 3): dense by rows, fragile by columns."""
+    rs = np.random.RandomState(seed)
+    A = (rs.rand(n, n) < .75).astype(float)
+    np.fill_diagonal(A, 0)
+    A[:, 0] = 0
+    A[:, 1] = 0
+    A[2, 0] = 1
+    A[3, 1] = 1
+    for i in range(n):            # top rows up to out-degree >= n/2
+        while A[i].sum() < (n + 1) // 2 + 1:
+            j = int(rs.randint(2, n))
+            if j != i:
+                A[i, j] = 1
+    A[0, 2:] = 1
+    A[1, 2:] = 1
+    return A
+
+
 def late_hub_tree(n, seed):
     """labelled tree aimed at late multi-way merges of a row-major scan: low-numbered leaves hang on
     high-numbered nodes, which are tied together through a few mid-numbered hubs."""
@@ -377,7 +403,7 @@ NAMED = {
     'lollipop': lollipop, 'dcycle': dcycle, 'dcycle_chords': dcycle_chords, 'dag': dag,
     'tournament': tournament, 'two_blobs_dir': two_blobs_dir, 'oneway_bridge': oneway_bridge,
     'er_connected': er_connected, 'er_strong': er_strong, 'planted': planted, 'late_merge': late_merge,
-    'late_merge_k': late_merge_k, 'late_hub_tree': late_hub_tree, 'diamond_chain': diamond_chain, 'layered': layered,
+    'late_merge_k': late_merge_k, 'late_hub_tree': late_hub_tree, 'diamond_chain': diamond_chain, 'layered': layered, 'blob_chain': blob_chain, 'dense_out_low_in': dense_out_low_in,
 }
 
 
@@ -504,6 +530,14 @@ def many_paths(nmax):
     for sizes in ([1, 16, 16, 1], [1, 4, 4, 4, 4, 1], [1, 2, 8, 16, 1], [1, 16, 16, 16, 16, 1], [1] + [2] * 32 + [1], [1] + [2] * 64 + [1]):
         if sum(sizes) <= nmax:
             out += [['named', 'layered', sizes, False], ['named', 'layered', sizes, True]]
+    return out
+
+
+def blob_chains(nmax):
+    out = []
+    for k, m in ((20, 34), (12, 40), (8, 80), (20, 250), (30, 215)):
+        if k + m <= nmax:
+            out.append(['named', 'blob_chain', k, m, False])
     return out
 
 
